@@ -39,11 +39,11 @@ Definition gstatic_of_sx (s : sx) : gstatic :=
        (sxN (sx_nth s 4)) (sxOptN (sx_nth s 5)) (sxNat (sx_nth s 6)).
 
 (* the item-set machinery as an oracle keyed by exactly what create_table hands to it:
-   ((start lr1 ps pse swapped_aug follow) result), result = 0 (interrupted) | (1 table).
+   ((start lr1 ps pse lexdis swapped_aug follow) result), result = 0 (interrupted) | (1 table).
    A table carries a trailing pseudo-state whose symbol is a tag naming the oracle entry
    (never reached by any transition; it has no cells). *)
 Definition core_key (G : gstatic) (ps : list prod) (o : bopts) (fo : ftab) : sx :=
-  L [A (b_start o); ofB (b_lr1 o); ofB (b_ps o); ofB (b_pse o);
+  L [A (b_start o); ofB (b_lr1 o); ofB (b_ps o); ofB (b_pse o); ofB (b_lexdis o);
      sx_of_syms (match ps with p :: _ => rhs p | [] => [] end);
      sx_of_ftab fo (s_nts G)].
 
@@ -86,17 +86,28 @@ Definition sx_of_init (r : result (table * option table)) : sx :=
 Definition popts_of_sx (s : sx) : popts :=
   mkP (sxB (sx_nth s 0)) (sxB (sx_nth s 1)) (sxB (sx_nth s 2)) (sxB (sx_nth s 3)).
 
-(* 151: grammar machine: (static aug0 (opts...) oracle) -> per build (result grammar-state) *)
+(* the environment of one construction: 0 = nothing interrupts, 1 = the state budget is
+   exceeded while the LAYOUT automaton is built, 2 = while the main automaton is built *)
+Definition core_env (G : gstatic) (oracle : list sx) (env : N) (ps : list prod) (o : bopts)
+           (ft fo : ftab) : core_res :=
+  let is_layout := match s_layout G with Some lp => b_start o =? lp | None => false end in
+  match env with
+  | 1 => if is_layout then CoreInterrupted else oracle_core G oracle ps o ft fo
+  | 2 => if is_layout then oracle_core G oracle ps o ft fo else CoreInterrupted
+  | _ => oracle_core G oracle ps o ft fo
+  end.
+
+(* 151: grammar machine: (static aug0 ((glr slr ps pse env)...) oracle) -> per build (result grammar-state) *)
 Definition run_c15_1 (s : sx) : sx :=
   let G := gstatic_of_sx (sx_nth s 0) in
   let aug0 := syms_of_sx (sx_nth s 1) in
-  let ops := map popts_of_sx (sxL (sx_nth s 2)) in
+  let ops := map (fun x => (popts_of_sx x, sxN (sx_nth x 4))) (sxL (sx_nth s 2)) in
   let oracle := sxL (sx_nth s 3) in
   let g := mkProd (s_aug_nt G) aug0 :: s_prods G in
-  let init := parser_init G (oracle_core G oracle) sr_conflicts_of (rr_conflicts_of g) in
-  L (snd (fold_left (fun acc o =>
+  let init := fun env => parser_init G (core_env G oracle env) sr_conflicts_of (rr_conflicts_of g) in
+  L (snd (fold_left (fun acc oe =>
                        let '(gs, out) := acc in
-                       let '(gs', r) := init gs o in
+                       let '(gs', r) := init (snd oe) gs (fst oe) in
                        (gs', out ++ [L [sx_of_init r; sx_of_gstate G gs']]))
                     ops (mkG aug0 None, []))).
 
